@@ -106,6 +106,28 @@ def _propagate_constants(repo, ref_names):
         for node in ast.walk(m.tree):
             if isinstance(node, ast.ClassDef):
                 class_names[node.name] = {t.id for st in node.body if isinstance(st, (ast.Assign, ast.AnnAssign)) for t in (st.targets if isinstance(st, ast.Assign) else [st.target]) if isinstance(t, ast.Name)}
+        # ... nor mutated in place (item store / delete, or a mutating method call on it): a container that is written to is state, not a constant
+        MUT_ = ('append', 'extend', 'insert', 'remove', 'pop', 'clear', 'sort', 'reverse', 'update', 'setdefault', 'add', 'discard', 'popitem')
+
+        def _base_name(e):
+            while isinstance(e, ast.Subscript):
+                e = e.value
+            if isinstance(e, ast.Attribute):
+                return e.attr
+            if isinstance(e, ast.Name):
+                return e.id
+            return None
+        for node in ast.walk(m.tree):
+            nm_ = None
+            if isinstance(node, ast.Subscript) and isinstance(node.ctx, (ast.Store, ast.Del)):
+                nm_ = _base_name(node.value)
+            elif isinstance(node, ast.Call) and isinstance(node.func, ast.Attribute) and node.func.attr in MUT_:
+                nm_ = _base_name(node.func.value)
+            elif isinstance(node, ast.AugAssign):
+                nm_ = _base_name(node.target)
+            if nm_ is not None:
+                for k in [k for k in cands if k[1] == nm_ and isinstance(cands[k], (ast.Dict, ast.List, ast.Set))]:
+                    del cands[k]
         module_level = {k[1]: v for k, v in cands.items() if k[0] is None}
         class_level = {k: v for k, v in cands.items() if k[0] is not None}
 
